@@ -105,6 +105,7 @@ type Action struct {
 	Pick int    `json:"pick,omitempty"`
 	OK   bool   `json:"ok,omitempty"`
 	Err  int    `json:"err,omitempty"`
+	TTL  int    `json:"ttl_ms,omitempty"` // start of a config caller: the cacheTTL argument it passes (ms; 0 = pint's default 1m)
 }
 
 type Case struct {
@@ -119,11 +120,13 @@ type Case struct {
 	DelaysUs []int   `json:"delays_us,omitempty"`
 	ErrEvery int     `json:"err_every,omitempty"`
 	// stress: cache maintenance running concurrently with the callers
-	GC     bool   `json:"gc,omitempty"`     // FailoverGroup.CleanCache() loops in its own goroutine for the whole run
-	Fill   int    `json:"fill,omitempty"`   // distinct instant queries answered (and cached) before the callers start
-	Rounds int    `json:"rounds,omitempty"` // after its waves every caller asks all (by then answered) questions again, this many times
-	Report string `json:"report,omitempty"` // race
-	Class  string `json:"class,omitempty"`
+	GC   bool `json:"gc,omitempty"`   // FailoverGroup.CleanCache() loops in its own goroutine for the whole run
+	Fill int  `json:"fill,omitempty"` // distinct instant queries answered (and cached) before the callers start
+	// stress: the cacheTTL (ms) each caller passes to Config(); empty = 0 for everybody
+	ConfigTTLs []int  `json:"config_ttls,omitempty"`
+	Rounds     int    `json:"rounds,omitempty"` // after its waves every caller asks all (by then answered) questions again, this many times
+	Report     string `json:"report,omitempty"` // race
+	Class      string `json:"class,omitempty"`
 }
 
 var errAnswers = []fakeprom.Answer{
@@ -153,6 +156,8 @@ func (a absRange) String() string      { return fmt.Sprintf("%d-%d/%d", a.start,
 type caller struct {
 	q    int
 	wave int
+	ttl  int  // config callers: cacheTTL in ms
+	seen bool // its completion has been noticed by a verdict
 	done chan struct{}
 	res  string
 	err  error
@@ -179,6 +184,8 @@ type system struct {
 	settleMisses          int
 	skipped               int
 	usedErr, usedRangeErr bool
+	toleratedReask        map[int]bool // config requests made on behalf of a caller that wanted a fresh answer
+	freshRefetches        int
 	abandoned             bool // callers are stuck: do not Close() the group under them
 	stale                 bool // sibling slices of a failed range query were not seen aborted in time: case is inconclusive
 }
@@ -220,7 +227,7 @@ func (s *system) unfinished() int {
 	return n - int(s.finished.Load())
 }
 
-func (s *system) ask(q Question, wave int) (string, error) {
+func (s *system) ask(q Question, wave, ttlMs int) (string, error) {
 	name := q.Name
 	if wave > 0 {
 		name = fmt.Sprintf("%s_w%d", q.Name, wave)
@@ -258,7 +265,7 @@ func (s *system) ask(q Question, wave int) (string, error) {
 		}
 		return res, nil
 	case "config":
-		r, err := s.fg.Config(ctx, 0)
+		r, err := s.fg.Config(ctx, time.Duration(ttlMs)*time.Millisecond)
 		if err != nil {
 			return "", err
 		}
@@ -359,8 +366,8 @@ func (s *system) checkAgainstServer(q Question, wave int, res string) error {
 	return nil
 }
 
-func (s *system) startCaller(qi, wave int) {
-	c := &caller{q: qi, wave: wave, done: make(chan struct{})}
+func (s *system) startCaller(qi, wave, ttlMs int) {
+	c := &caller{q: qi, wave: wave, ttl: ttlMs, done: make(chan struct{})}
 	s.mu.Lock()
 	s.callers = append(s.callers, c)
 	s.mu.Unlock()
@@ -372,7 +379,7 @@ func (s *system) startCaller(qi, wave int) {
 			s.finished.Add(1)
 			close(c.done)
 		}()
-		c.res, c.err = s.ask(s.c.Questions[qi], wave)
+		c.res, c.err = s.ask(s.c.Questions[qi], wave, ttlMs)
 	}()
 }
 
@@ -489,7 +496,7 @@ func (s *system) exec(a Action) {
 		if s.cached[qi] < q.n() {
 			s.w[qi]++
 		}
-		s.startCaller(qi, 0)
+		s.startCaller(qi, 0, a.TTL)
 	case "release":
 		pend := s.g.Pending()
 		if !a.OK {
@@ -602,8 +609,34 @@ func (s *system) checkStep() error {
 	return s.verdict(5 * time.Second)
 }
 
+// freshConfigCaller: a Config() caller that asked for an answer no older than 1 ms is (or was until this step)
+// waiting: by the time anything is cached it is older than that, so that caller may legitimately make the
+// server see the config question again.
+const freshTTL = 1
+
 func (s *system) verdict(wait time.Duration) error {
+	s.mu.Lock()
+	fresh := false
+	for _, c := range s.callers {
+		if s.c.Questions[c.q].Kind == "config" && c.ttl == freshTTL && !c.seen {
+			fresh = true
+		}
+	}
+	s.mu.Unlock()
 	for _, sp := range s.g.Confirm(wait) {
+		if sp.Kind == "reasked" && sp.Req.Endpoint == "config" {
+			if s.toleratedReask[sp.ID] {
+				continue
+			}
+			if fresh {
+				if s.toleratedReask == nil {
+					s.toleratedReask = map[int]bool{}
+				}
+				s.toleratedReask[sp.ID] = true
+				s.freshRefetches++
+				continue
+			}
+		}
 		return fmt.Errorf("%s", sp.String())
 	}
 	s.mu.Lock()
@@ -611,6 +644,7 @@ func (s *system) verdict(wait time.Duration) error {
 	for _, c := range s.callers {
 		select {
 		case <-c.done:
+			c.seen = true
 			if c.pan != nil {
 				return fmt.Errorf("caller of %v panicked: %v", s.c.Questions[c.q], c.pan)
 			}
@@ -677,6 +711,9 @@ func (s *system) finalChecks() error {
 			}
 		}
 		key := k{c.q, c.wave}
+		if s.freshRefetches > 0 && s.c.Questions[c.q].Kind == "config" {
+			continue // a legitimate refetch on behalf of a fresh-answer caller changes what later callers are given
+		}
 		if prev, ok := seen[key]; ok && prev != c.res {
 			return fmt.Errorf("two callers of %v received different results:\n  %s\n  %s", s.c.Questions[c.q], prev, c.res)
 		}
@@ -886,12 +923,20 @@ func isSharedSlice(shared map[string]bool, p fakeprom.Pending) bool {
 }
 
 func caseKey(c Case) string {
-	return fmt.Sprintf("%s|%d|%v|%v|%d|%d|%v|%v|%d|%v|%d|%d", c.Kind, c.Concurrency, c.Questions, c.Actions, c.Procs, c.Waves, c.Callers, c.DelaysUs, c.ErrEvery, c.GC, c.Fill, c.Rounds)
+	return fmt.Sprintf("%s|%d|%v|%v|%d|%d|%v|%v|%d|%v|%d|%d|%v", c.Kind, c.Concurrency, c.Questions, c.Actions, c.Procs, c.Waves, c.Callers, c.DelaysUs, c.ErrEvery, c.GC, c.Fill, c.Rounds, c.ConfigTTLs)
 }
 
 var wsRe = regexp.MustCompile(`\s+`)
 
 func knownClass(c Case) string { return "" }
+
+// ttlChoices: the cacheTTL values Config() callers pass (ms): default, 1m, 5m, 10m, and - if allowed - 1 ms.
+func ttlChoices(fresh bool) []int {
+	if fresh {
+		return []int{0, freshTTL, 60000, 300000, 600000, freshTTL}
+	}
+	return []int{0, 60000, 300000, 600000}
+}
 
 // ---------------------------------------------------------------------------
 // TestPropMachine
@@ -904,6 +949,7 @@ func TestPropMachine(t *testing.T) {
 		c := Case{Kind: "machine"}
 		c.Concurrency = rapid.SampledFrom([]int{1, 2, 3, 8, 3, 8}).Draw(rt, "concurrency")
 		c.Questions = genQuestions(rt, false)
+		allowFresh := rapid.IntRange(0, 3).Draw(rt, "allowFresh") == 0
 		s := newSystem(c)
 		defer s.shutdown()
 
@@ -941,7 +987,13 @@ func TestPropMachine(t *testing.T) {
 			if s.unfinished() >= maxActive {
 				rt.Skip()
 			}
-			do(Action{Op: "start", Q: rapid.IntRange(0, len(c.Questions)-1).Draw(rt, "q")})
+			a := Action{Op: "start", Q: rapid.IntRange(0, len(c.Questions)-1).Draw(rt, "q")}
+			if c.Questions[a.Q].Kind == "config" {
+				// what the caller passes as cacheTTL is not part of the question; 1 ms (pint watch's rule_files finder)
+				// only in sequences that allow it, so that the others stay strict
+				a.TTL = rapid.SampledFrom(ttlChoices(allowFresh)).Draw(rt, "ttl")
+			}
+			do(a)
 		}
 		startSame := func(rt *rapid.T) { // one more caller for a question that is in flight right now
 			pend := s.g.Pending()
@@ -952,7 +1004,11 @@ func TestPropMachine(t *testing.T) {
 			if qi < 0 {
 				rt.Skip()
 			}
-			do(Action{Op: "start", Q: qi})
+			a := Action{Op: "start", Q: qi}
+			if c.Questions[qi].Kind == "config" {
+				a.TTL = rapid.SampledFrom(ttlChoices(allowFresh)).Draw(rt, "ttl")
+			}
+			do(a)
 		}
 		relOK := func(rt *rapid.T) {
 			if s.g.InFlight() == 0 {
@@ -1023,6 +1079,7 @@ func genStress(t *rapid.T) Case {
 	}
 	c.DelaysUs = rapid.SliceOfN(rapid.IntRange(0, 3000), 8, 16).Draw(t, "delays")
 	c.ErrEvery = rapid.SampledFrom([]int{0, 0, 0, 4, 7}).Draw(t, "errEvery")
+	c.ConfigTTLs = rapid.SliceOfN(rapid.SampledFrom(ttlChoices(rapid.IntRange(0, 3).Draw(t, "allowFresh") == 0)), k, k).Draw(t, "configTTLs")
 	if rapid.Bool().Draw(t, "gc") {
 		c.GC = true
 		c.Fill = rapid.SampledFrom([]int{0, 100, 200, 400}).Draw(t, "fill")
@@ -1098,7 +1155,15 @@ func runStress(c Case, tol tolerance) (res stressResult, err error) {
 	wrong := map[int]error{}
 	var progress atomic.Int64
 	gate := make(chan struct{})
-	for _, order := range c.Callers {
+	anyFresh := false
+	for _, t := range c.ConfigTTLs {
+		anyFresh = anyFresh || t == freshTTL
+	}
+	for ci, order := range c.Callers {
+		ttl := 0
+		if len(c.ConfigTTLs) > 0 {
+			ttl = c.ConfigTTLs[ci%len(c.ConfigTTLs)]
+		}
 		wg.Add(1)
 		go func() {
 			defer wg.Done()
@@ -1115,7 +1180,7 @@ func runStress(c Case, tol tolerance) (res stressResult, err error) {
 				for wave := 1; wave <= c.Waves; wave++ {
 					for _, qi := range order {
 						qi = qi % len(c.Questions)
-						r, err := s.ask(c.Questions[qi], wave)
+						r, err := s.ask(c.Questions[qi], wave, ttl)
 						progress.Add(1)
 						if errors.Is(err, errWrongAnswer) {
 							mu.Lock()
@@ -1183,6 +1248,9 @@ wait:
 	// nothing is ever aborted here (no failing range slices), so suspects are final
 	if res.stats.Aborted == 0 {
 		for _, sp := range s.g.Suspects() {
+			if anyFresh && sp.Kind == "reasked" && sp.Req.Endpoint == "config" {
+				continue // some caller asks for a config no older than 1 ms: refetching is its right
+			}
 			if sp.Kind != "overflow" && isSharedSlice(shared, sp.Req) {
 				res.sharedHits++
 				if tolerateShared {
@@ -1209,6 +1277,9 @@ wait:
 		sort.Strings(keys)
 		for _, key := range keys {
 			if n := perKey[key]; n != 1 {
+				if anyFresh && first[key].Endpoint == "config" {
+					continue
+				}
 				if isSharedSlice(shared, first[key]) {
 					res.sharedHits++
 					if tolerateShared {
@@ -1264,6 +1335,9 @@ wait:
 			}
 		}
 		for _, r := range rs[1:] {
+			if anyFresh && c.Questions[key.q].Kind == "config" {
+				break
+			}
 			if r != rs[0] {
 				if boundaryTainted(key.q) {
 					res.boundaryHits++
